@@ -136,6 +136,31 @@ func c15Dense(r *rng, tag string) [][]string {
 	return es
 }
 
+// two or three moderately wide layers (5-9 nodes each, >= 25 cells between neighbours) under one root
+func c15Wide(r *rng, tag string) [][]string {
+	var es [][]string
+	layers := r.between(2, 3)
+	prev := []string{"root" + tag}
+	for l := 0; l < layers; l++ {
+		w := r.between(5, 9)
+		var cur []string
+		for x := 0; x < w; x++ {
+			id := fmt.Sprintf("%s_%d_%d", tag, l, x)
+			cur = append(cur, id)
+			es = append(es, []string{prev[r.intn(len(prev))], id})
+			if l > 0 && r.chance(60) {
+				es = append(es, []string{prev[r.intn(len(prev))], id})
+			}
+		}
+		prev = cur
+	}
+	if r.chance(30) && len(prev) >= 2 {
+		es = append(es, []string{prev[0], "root" + tag}) // a cycle through the root
+	}
+	shuffleEdges(r, es)
+	return es
+}
+
 // two sparse layers of 33-36 nodes each: more than 1024 cells between them (size thresholds of pooled buffers)
 func c15VeryWide(r *rng, tag string) [][]string {
 	a, b := r.between(33, 36), r.between(33, 36)
@@ -186,8 +211,20 @@ func (cx *Ctx) oracleC15(rs []JobResult) (bool, string, string, string) {
 		return false, "", "", ""
 	}
 	res := jr.Res
-	for _, o := range append(append([]spec.Outcome{}, res.Outcomes...), res.Solo...) {
+	damaged := false // some concurrent caller did not simply return or panic: blocked tasks may live on in the process
+	for _, o := range res.Outcomes {
 		if o.Verdict == "HARNESS" {
+			cx.trouble("harness verdict: %s", o.Detail)
+			return false, "", "", ""
+		}
+		if o.Verdict == "DEADLOCK" || o.Verdict == "BUDGET" || o.Verdict == "FATAL" {
+			damaged = true
+		}
+	}
+	for _, o := range res.Solo {
+		// an in-process reference taken after a damaged concurrent phase may trip over what that phase left behind (a task
+		// of another call woken up inside this one): such references are retaken in a fresh process below, not trusted
+		if o.Verdict == "HARNESS" && !damaged {
 			cx.trouble("harness verdict: %s", o.Detail)
 			return false, "", "", ""
 		}
@@ -212,12 +249,30 @@ func (cx *Ctx) oracleC15(rs []JobResult) (bool, string, string, string) {
 			c.Var, c.Loc, c.TaskA, c.A, c.TaskB, c.B, len(jr.Job.Calls), sched, res.Switches)
 		return true, key, what, fpOf(key)
 	}
+	if os.Getenv("VERIF_DEBUG_C15") != "" {
+		for _, o := range res.Outcomes {
+			if o.Verdict == "DEADLOCK" {
+				fmt.Fprintf(os.Stderr, "debug c15 job: outcomes=%d solo=%d conflicts=%d\n", len(res.Outcomes), len(res.Solo), len(res.Conflicts))
+				for i, o := range res.Outcomes {
+					fmt.Fprintf(os.Stderr, "   conc %d %s/%s tasks=%d\n", i, o.Verdict, o.Detail, o.Tasks)
+				}
+				for i, o := range res.Solo {
+					fmt.Fprintf(os.Stderr, "   solo %d %s/%s tasks=%d\n", i, o.Verdict, o.Detail, o.Tasks)
+				}
+				break
+			}
+		}
+	}
 	// O1
 	spawned, cut := false, false
-	for _, o := range append(append([]spec.Outcome{}, res.Outcomes...), res.Solo...) {
+	for _, o := range res.Outcomes {
+		// (the in-process solo runs are not asked: a caller left blocked for ever by the concurrent phase lives on in the
+		// process and is counted among the tasks of whichever later call wakes it up)
 		if o.Tasks > 1 {
 			spawned = true
 		}
+	}
+	for _, o := range append(append([]spec.Outcome{}, res.Outcomes...), res.Solo...) {
 		if o.Verdict == "BUDGET" {
 			cut = true
 		}
@@ -233,7 +288,7 @@ func (cx *Ctx) oracleC15(rs []JobResult) (bool, string, string, string) {
 			break
 		}
 		a, b := res.Solo[i], res.Outcomes[i]
-		if os.Getenv("VERIF_DEBUG_C15") != "" && (b.Verdict == "BUDGET" || a.Verdict == "BUDGET") {
+		if os.Getenv("VERIF_DEBUG_C15") != "" && (b.Verdict == "BUDGET" || a.Verdict == "BUDGET" || b.Verdict == "DEADLOCK" || a.Verdict == "DEADLOCK") {
 			fmt.Fprintf(os.Stderr, "debug c15 pre: caller %d conc %s/%s ticks=%d; solo %s/%s ticks=%d spawned=%v\n", i, b.Verdict, b.Detail, b.Ticks, a.Verdict, a.Detail, a.Ticks, spawned)
 		}
 		if (a.Verdict != "OK" || b.Verdict != "OK") && !spawned {
@@ -244,6 +299,9 @@ func (cx *Ctx) oracleC15(rs []JobResult) (bool, string, string, string) {
 			if f, ok := cx.c15FreshSolo(jr.Job, i); ok {
 				a = f
 			}
+		}
+		if a.Verdict == "HARNESS" {
+			continue // no usable reference for this caller
 		}
 		if a.Verdict != "BUDGET" && b.Verdict == "BUDGET" && (b.Detail == "loop" || b.Detail == "ticks" || b.Detail == "depth") && !spawned {
 			// returns when run alone, runs away next to the others. Ticks are counted per call, on the caller's own task, so
@@ -376,7 +434,7 @@ func (cx *Ctx) runC15() {
 	r := rng{s: mix(cx.Seed, 0xC15)}
 
 	var jobs []*spec.Job
-	nSharedOpts := 0
+	nSharedOpts, nAllWide, nTwoClasses := 0, 0, 0
 	for i := 0; i < nSpecs; i++ {
 		k := r.between(2, 8)
 		calls := cx.c15Calls(&r, k)
@@ -401,6 +459,65 @@ func (cx *Ctx) runC15() {
 			o := spec.Options{P1: pick(&r, "", "dfs"), P4: pick(&r, "", "valign", "packright"), P5: pick(&r, "", "straight", "noop")}
 			calls = []spec.Call{{Edges: c15Dense(&r, "x"), Opts: o}, {Edges: c15Dense(&r, "y"), Opts: o}}
 		}
+		oneMachine := false
+		fam := ""
+		if !dense && r.chance(6) {
+			// ALL callers (3-5) above the usual size thresholds at once, same algorithm selection: a recycled resource that
+			// is safe with two users and breaks with three (free lists, slot arrays, generation counters) needs every one of
+			// >= 3 overlapping callers on the shared path. Two or three moderately wide layers per caller: cheap.
+			fam = "allwide"
+			nAllWide++
+			k = r.between(3, 5)
+			o := spec.Options{P1: pick(&r, "", "", "dfs"), P2: pick(&r, "", "", "longestpath"), P4: pick(&r, "", "", "valign", "packright", "sinkcoloring"), P5: pick(&r, "", "straight", "noop", "polyline")}
+			calls = nil
+			for c := 0; c < k; c++ {
+				calls = append(calls, spec.Call{Edges: c15Wide(&r, fmt.Sprint("q", c)), Opts: o})
+			}
+		} else if !dense && r.chance(8) {
+			// TWO CLASSES of callers: k = 4-6 callers, each on one of two algorithm selections A and B (>= 2 callers each)
+			// that differ in the rarely used, expensive algorithms. Resources shared between two code paths - a gate with two
+			// classes, two locks taken in opposite orders, a condition variable with two kinds of waiters - go wrong only
+			// when callers of both kinds overlap, and usually only on a small machine (limits derived from the CPU count):
+			// all callers of such a spec see the same simulated machine, small more often than not.
+			fam = "twoclasses"
+			nTwoClasses++
+			oneMachine = true
+			k = r.between(4, 6)
+			heavy := []spec.Options{{P4: "ns"}, {P5: "splines"}, {P5: "ortho"}, {P2: "longestpath"}, {P1: "dfs"}, {P4: "sinkcoloring"}, {P4: "packright"}, {P4: "bk"}, {P1: "greedy-random"}}
+			ia := r.intn(len(heavy))
+			ib := r.intn(len(heavy) - 1)
+			if ib >= ia {
+				ib++
+			}
+			if r.chance(40) {
+				ia, ib = 0, 1 // the two algorithms the documentation singles out as time-intensive
+			}
+			calls = nil
+			for c := 0; c < k; c++ {
+				o := heavy[ia]
+				if c%2 == 1 {
+					o = heavy[ib]
+				}
+				var es [][]string
+				if r.chance(50) {
+					es = c15Wide(&r, fmt.Sprint("c", c))
+				} else {
+					es, _ = genGraph(&r, genCfg{nastyPct: 0, multiPct: 10})
+					if len(es) > 14 {
+						es = es[:14]
+					}
+				}
+				if o.P4 == "ns" {
+					o.FixedSize = &[2]float64{float64(r.between(1, 6) * 10), float64(r.between(1, 4) * 10)}
+				}
+				calls = append(calls, spec.Call{Edges: es, Opts: o})
+			}
+			// random arrival order of the two classes
+			for c := len(calls) - 1; c > 0; c-- {
+				d := r.intn(c + 1)
+				calls[c], calls[d] = calls[d], calls[c]
+			}
+		}
 		if len(calls) > 1 && calls[1].ShareOpts != nil {
 			nSharedOpts++
 		}
@@ -408,7 +525,23 @@ func (cx *Ctx) runC15() {
 		for t := range res {
 			res[t] = spec.Resolution{Adv: pick(&r, "identity", "identity", "seeded"), AdvSeed: r.next(), T0: int64(r.next() >> 3)}
 		}
+		if oneMachine {
+			// one simulated machine for all callers: 1 CPU (reverse), 8 CPUs (identity) or a drawn one (seeded: 1..192)
+			m := spec.Resolution{Adv: pick(&r, "reverse", "reverse", "seeded", "seeded", "identity"), AdvSeed: r.next()}
+			for t := range res {
+				res[t].Adv, res[t].AdvSeed = m.Adv, m.AdvSeed
+			}
+		}
 		scheds := c15Schedules(&r, nSched)
+		if fam == "allwide" {
+			// lock-free structures break inside a window of one or two instructions and only if the stalled caller stays
+			// stalled while the others make real progress: priority schedules with preemption inside loops
+			for si := range scheds {
+				if si%2 == 1 {
+					scheds[si] = &spec.Schedule{Policy: "pct", Seed: r.next(), Depth: r.between(2, 3), EntryPct: pick(&r, 0, 3), LoopPct: pick(&r, 2, 10, 40)}
+				}
+			}
+		}
 		if dense {
 			scheds = scheds[:nSched/2] // expensive specs: half the schedules
 		}
@@ -421,6 +554,12 @@ func (cx *Ctx) runC15() {
 				sc.Steps = 50 * k
 				if sc.EntryPct > 0 {
 					sc.Steps *= 8
+				}
+				if sc.LoopPct > 0 || sc.Seed%2 == 1 {
+					// the number of scheduling steps of a run is not known in advance (a library that polls an atomic in a hot
+					// loop makes 100k+ of them): half of the priority schedules spread their change points over a range drawn
+					// log-uniformly between 100 and ~3M steps
+					sc.Steps = 100 << ((sc.Seed >> 8) % 16)
 				}
 			}
 			b := cx.Budgets
@@ -521,6 +660,8 @@ func (cx *Ctx) runC15() {
 		"specs":                     nSpecs,
 		"schedules_per_spec":        nSched,
 		"specs_whose_callers_share_one_set_of_option_values": nSharedOpts,
+		"specs_with_3_to_5_callers_all_above_size_thresholds": nAllWide,
+		"specs_with_two_classes_of_callers_on_one_simulated_machine": nTwoClasses,
 		"distinct_schedule_fingerprints": len(fps),
 		"context_switches_total":    switches,
 		"yields_total":              yields,
@@ -761,6 +902,11 @@ func (cx *Ctx) c15Real(r *rng) map[string]any {
 		if rs[0].Timeout {
 			cx.trouble("real-thread stress timed out")
 			continue
+		}
+		if rs[0].Res != nil && rs[0].Res.Stalled != "" {
+			// wall-clock observation: trouble, not a verdict. Race reports and result differences seen before the stall are
+			// judged below like any others.
+			cx.trouble("real-thread stress (GOMAXPROCS=%s) stalled: %s", c.procs, rs[0].Res.Stalled)
 		}
 		if v, key, what, fp := cx.oracleRealRace(rs); v {
 			races++
